@@ -27,7 +27,8 @@ ASSUMPTIONS = [
     "only the default shift is exercised; photon-counting TDM programs inherit the recorded gaussian measure_fock finding and are "
     "not generated",
 ]
-REQUIRED_MONITORS = ["chain:conditional-distribution", "layout:samples", "space-unroll:joint-state", "roll:restores", "history:calls"]
+REQUIRED_MONITORS = ["chain:conditional-distribution", "layout:samples", "space-unroll:joint-state", "roll:restores", "history:calls",
+                     "history:rerun-equals-fresh"]
 
 NS = [[2], [3], [4], [2, 2], [1, 3], [2, 3]]
 
@@ -76,7 +77,7 @@ def gen_case(rng):
         cmds.append({"op": "MeasureHomodyne", "p": [{"par": int(rng.integers(nparams))} if rng.random() < 0.6 else float(rng.choice([0.0, np.pi / 2]))],
                      "m": [starts[b]]})
     return {"N": N, "arrays": arrs, "cmds": cmds, "shots": int(rng.choice([1, 1, 2, 3])),
-            "mode": str(rng.choice(["run", "run", "run-unrolled", "space", "space-crop", "history"]))}
+            "mode": str(rng.choice(["run", "run", "run-unrolled", "space", "space-crop", "history", "history"]))}
 
 
 def build(env, case):
@@ -282,7 +283,7 @@ def run_case(case, rep, env):
     rep.monitor("history:calls")
     rng = np.random.default_rng(case.get("hseed", 0))
     calls = []
-    for _ in range(int(rng.integers(2, 7))):
+    for _ in range(int(rng.integers(2, 11))):
         c = str(rng.choice(["unroll", "unroll2", "space", "roll", "roll", "run"]))
         calls.append(c)
         try:
@@ -315,7 +316,20 @@ def run_case(case, rep, env):
     prog.roll()
     if prog_snapshot(prog) != rolled_snap:
         V("TDMProgram.roll", "not-restored", "after %s + roll the program differs from the original" % calls)
+        return
     rep.seen("call-histories", "-".join(calls))
+    # the program must still *mean* the same: same samples as a freshly built program under the same random stream
+    try:
+        np.random.seed(5)
+        s1 = np.asarray(sf.Engine("gaussian").run(prog, shots=1).samples)
+        np.random.seed(5)
+        s2 = np.asarray(sf.Engine("gaussian").run(build(env, case), shots=1).samples)
+        rep.monitor("history:rerun-equals-fresh")
+        if s1.shape != s2.shape or np.max(np.abs(s1 - s2)) > 1e-9:
+            V("TDMProgram.run", "history-changes-meaning", "after %s the program returns different samples than a freshly built one "
+              "under the same random stream" % calls)
+    except Exception as e:
+        V("TDMProgram.run", "history-exception:" + type(e).__name__, "run after %s raised %s: %s" % (calls, type(e).__name__, str(e)[:120]))
 
 
 def plan(tier, seed, scale=1.0):
